@@ -422,3 +422,14 @@ Definition subset_observed (s : screen_t) : option subset_t :=
 Definition to_screen (s : subset_t) : screen_t := s.
 (* Screen.combine(other): Screen(<every column of self> ++ <every column of other>) *)
 Definition combine_screens (a b : screen_t) : result screen_t := construct (a ++ b).
+(* Screen.plates: [self.get_plate(x) for x in self.unique_plate_ids], get_plate(x) = Plate(self, self.plate_ids == x).
+   A Plate object is its selection vector into its (mutable) parent screen; plate ids are ranks of sorted names. *)
+Definition plates_of (s : screen_t) : list bvec := map (fun p => plate_vec p s) (plate_names_of s).
+(* plate.unique_sample_ids of a plate [v] of the screen [s]: np.unique(s.sample_ids[v]) - as names, sorted *)
+Definition plate_unique_samples (v : bvec) (s : screen_t) : list name := sort_uniq name_cmp (map r_sample (vselect v s)).
+(* a[0] on a numpy array: IndexError when it is empty *)
+Definition first_item {A} (l : list A) : result A := match l with x :: _ => Ok x | [] => Err 92%Z end.
+(* plate.size = number of selected experiments *)
+Definition plate_size (v : bvec) : Z := Z.of_nat (vcount v).
+(* len(l) *)
+Definition zlen {A} (l : list A) : Z := Z.of_nat (length l).
